@@ -462,7 +462,7 @@ def file_replacement(rp, binp, sc, tier):
     with common.Lock():
         emit_writeproto(obs)
         ok_inst, ok_props, _, logs = common.coq_stage(
-            rp, ["theories/Proofs/FileReplP.vo", "theories/Inst/Inst_C19.vo"], "theories/Props/C19.v",
+            rp, ["theories/Proofs/FileReplP.vo", "theories/Proofs/CliP.vo", "theories/Inst/Inst_C19.vo"], "theories/Props/C19.v",
             PROP_THEOREMS, inst_names=INST_LEMMAS)
     shapes = {w: classify(obs[w]["ok_steps"]) for w in obs}
     rp.cov["observed_protocol"] = {w: dict(shape=shapes[w], calls=[step_json(s)[:3] for s in obs[w]["ok_steps"]],
@@ -569,27 +569,567 @@ def file_replacement(rp, binp, sc, tier):
     return n_runs + len(cases), n_mid + len(kill_points), samples
 
 
+# ------------------------------------------------------------------------------------------------
+# part 2: verdict matrix — the real binary vs the Coq verdict model vs library verdicts (Go harness)
+
+VALID = ["select a,b from t where x=1\n", "select 1", "insert into t (a) values (1)\n",
+         "select u.id from users u join orders o on o.uid = u.id where o.total > 10 order by 1\n", "SELECT a FROM t\n"]
+INVALID = ["select from where\n", "selec 1\n", "select * from (\n", "select 'unterminated\n"]
+EDGE = ["", "  \n", "-- only a comment\n", "select 1;;\n", ";\n"]
+LINTY = ["select a  from t   \n", "\tselect 1\n    \tfrom t\n", "SELECT a FROM t\n\n\n\nWHERE a = 1\n", "select " + ", ".join("col%d" % i for i in range(12)) + " from t\n"]
+INLINE = ["select 1", "select from", "SELECT\n1", "select a,b from t", "select 1;;", "select  a from t  "]
+MISSING = None      # a file argument that does not exist
+
+
+def looks_like_sql(t):
+    up = t.strip().upper()
+    return any(up.startswith(k + " ") or up.startswith(k + "\n") or up.startswith(k + "\t") or up == k for k in
+               ["SELECT", "INSERT", "UPDATE", "DELETE", "CREATE", "DROP", "ALTER", "TRUNCATE", "WITH", "MERGE", "EXPLAIN", "ANALYZE", "SHOW", "DESCRIBE", "DESC"])
+
+
+def ensure_nl(b):
+    return b if b.endswith("\n") else b + "\n"
+
+
+class Lib:
+    """library facts from the Go harness, keyed by (text, indent, uppercase, compact, max_length)"""
+    def __init__(self):
+        self.want, self.facts = set(), {}
+    @staticmethod
+    def key(text, o=None):
+        o = o or {}
+        return (text, o.get("indent", 2), o.get("uppercase", True), o.get("compact", False), o.get("max_length", 100))
+    def need(self, text, o=None):
+        if text is not None:
+            self.want.add(self.key(text, o))
+            self.want.add(self.key(text.strip(), o))
+    def fetch(self):
+        todo = sorted(k for k in self.want if k not in self.facts)
+        if not todo:
+            return
+        inp = "".join(json.dumps(dict(sql=k[0], indent=k[1], uppercase=k[2], compact=k[3], max_length=k[4])) + "\n" for k in todo)
+        p = common.vh(["cli"], input=inp, timeout=900)
+        lines = [l for l in p.stdout.splitlines() if l.strip()]
+        if p.returncode != 0 or len(lines) != len(todo):
+            raise common.StageError("harness-cli", (p.stderr or p.stdout)[-2000:], tree_caused=True)
+        for k, l in zip(todo, lines):
+            self.facts[k] = json.loads(l)
+    def get(self, text, o=None):
+        return self.facts[self.key(text, o)]
+
+
+def fmt_opts(fl):
+    return dict(indent=fl.get("indent", 2), uppercase=not fl.get("no_uppercase", False), compact=fl.get("compact", False))
+
+
+def scenario_argv(sc):
+    cmd, fl = sc["cmd"], sc["flags"]
+    a = [cmd]
+    if cmd == "validate":
+        if fl.get("fmt"):
+            a += ["--output-format", fl["fmt"]]
+        if fl.get("strict"):
+            a += ["--strict"]
+        if fl.get("quiet"):
+            a += ["--quiet"]
+        if fl.get("outfile"):
+            a += ["--output-file", fl["outfile"]]
+    elif cmd == "format":
+        if fl.get("inplace"):
+            a += ["-i"]
+        if fl.get("check"):
+            a += ["--check"]
+        if fl.get("compact"):
+            a += ["--compact"]
+        if fl.get("no_uppercase"):
+            a += ["--no-uppercase"]
+        if fl.get("uppercase_flag"):
+            a += ["--uppercase"]
+        if fl.get("indent", 2) != 2:
+            a += ["--indent", str(fl["indent"])]
+        if fl.get("output"):
+            a += ["-o", fl["output"]]
+    elif cmd == "lint":
+        if fl.get("fix"):
+            a += ["--auto-fix"]
+        if fl.get("failwarn"):
+            a += ["--fail-on-warn"]
+        if fl.get("max_length"):
+            a += ["--max-length", str(fl["max_length"])]
+    elif cmd == "parse":
+        if fl.get("fmt"):
+            a += ["-f", fl["fmt"]]
+        if fl.get("tokens"):
+            a += ["--tokens"]
+        if fl.get("tree"):
+            a += ["--tree"]
+    if sc["kind"] == "files":
+        a += ["f%d.sql" % i for i in range(len(sc["texts"]))]
+    elif sc["kind"] == "inline":
+        a += [sc["texts"][0]]
+    return a
+
+
+def run_scenario(binp, scr, sc):
+    d = scr.sub()
+    before = {}
+    if sc["kind"] == "files":
+        for i, t in enumerate(sc["texts"]):
+            if t is not None:
+                with open(os.path.join(d, "f%d.sql" % i), "wb") as f:
+                    f.write(t.encode())
+                before["f%d.sql" % i] = t.encode()
+    stdin = sc["texts"][0].encode() if sc["kind"] == "stdin" else None
+    if sc["kind"] == "stdin":
+        # a pipe on stdin (possibly empty)
+        rc, out, err = run_cli(binp, scenario_argv(sc), d, stdin=stdin, fsize=sc.get("fsize"))
+    else:
+        rc, out, err = run_cli_tty(binp, scenario_argv(sc), d, fsize=sc.get("fsize"))
+    after = {}
+    for fn in sorted(os.listdir(d)):
+        pth = os.path.join(d, fn)
+        if os.path.isfile(pth):
+            after[fn] = open(pth, "rb").read()
+    shutil.rmtree(d, ignore_errors=True)
+    return dict(rc=rc, out=out, err=err, before=before, after=after)
+
+
+def v_outcome(lib, text, strict):
+    if text is None:
+        return False
+    if text == "":
+        return True
+    f = lib.get(text)
+    return f["strict_ok"] if strict else f["pipeline_ok"]
+
+
+def lib_accepts(lib, text, strict):
+    """library verdict for the oracle; None: the library entry points disagree with each other (C07's matter) or the
+    input is empty (the CLI documents empty input as valid)"""
+    if text is None:
+        return False
+    if text.strip() == "":
+        return None
+    f = lib.get(text)
+    if strict:
+        return f["strict_ok"]
+    if f["gosqlx_validate"] != f["parser_validate"]:
+        return None
+    return f["gosqlx_validate"]
+
+
+def stdin_refused(t):
+    return t == "" or "\0" in t[:512]
+
+
+def cq_input(kind, items, stdin_none=False):
+    if kind == "none":
+        return "INone"
+    if kind == "stdin":
+        return "(IStdin None)" if stdin_none else "(IStdin (Some %s))" % items[0]
+    if kind == "inline":
+        return "(IInline %s)" % items[0]
+    return "(IFiles [%s])" % "; ".join(items)
+
+
+def cq_bool(b):
+    return "true" if b else "false"
+
+
+def cq_b(t):
+    return coq_bytes(t if isinstance(t, bytes) else t.encode())
+
+
+def cq_observed(rc, stdout, writes, outf):
+    return "(mkO %d %s [%s] %s)" % (rc, "None" if stdout is None else "(Some %s)" % cq_b(stdout),
+                                    "; ".join("(%d%%nat, %s)" % (i, cq_b(b)) for i, b in writes),
+                                    "None" if outf is None else "(Some %s)" % cq_b(outf))
+
+
+def judge(sc, r, lib):
+    """-> (coq_case, [oracle failure strings]).  The oracle is phrased in terms of the property text and of library
+    verdicts only; the Coq case carries the model's inputs (from the library facts) and the observed behaviour."""
+    cmd, fl, kind, texts = sc["cmd"], sc["flags"], sc["kind"], sc["texts"]
+    bad = []
+    rc = r["rc"]
+    if rc not in (0, 1):
+        bad.append("exit status %s is neither 0 nor 1" % rc)
+    nfiles = len(texts) if kind == "files" else 0
+    writes = [(i, r["after"].get("f%d.sql" % i)) for i in range(nfiles)
+              if texts[i] is not None and r["after"].get("f%d.sql" % i) != texts[i].encode()]
+    writes = [(i, b if b is not None else b"<deleted>") for i, b in writes]
+    for i in range(nfiles):
+        if texts[i] is None and ("f%d.sql" % i) in r["after"]:
+            bad.append("a missing input file was created")
+    extra = sorted(k for k in r["after"] if not re.match(r"^f\d+\.sql$", k))
+    refused = kind == "stdin" and stdin_refused(texts[0])
+
+    if cmd == "validate":
+        strict = bool(fl.get("strict"))
+        fmt = fl.get("fmt") or "text"
+        fmtn = {"text": 0, "json": 1, "sarif": 2}.get(fmt, 3)
+        outfile = fl.get("outfile")
+        out_ok = not (outfile and outfile.startswith("nodir/"))
+        if kind == "inline" and not strict and fmtn == 0:
+            outs = [lib.get(texts[0])["parser_validate"]]
+        elif kind == "inline":
+            outs = [v_outcome(lib, texts[0].strip(), strict)]
+        elif kind in ("files", "stdin") and not refused:
+            outs = [v_outcome(lib, t, strict) for t in texts]
+        else:
+            outs = []
+        # observed report
+        rep, rep_valid, rep_src = None, True, None
+        names = {"files": ["f%d.sql" % i for i in range(nfiles)], "stdin": ["stdin"], "inline": [texts[0]] if texts else [], "none": []}[kind]
+        if fmtn in (1, 2) and outs and not (kind != "stdin" and fmtn == 3):
+            rep_src = r["after"].get(outfile) if (outfile and out_ok) else (r["out"] if not outfile else None)
+            if outfile and out_ok and r["out"].strip():
+                bad.append("report requested into a file but something was printed on stdout")
+        if rep_src is not None:
+            try:
+                doc = json.loads(rep_src.decode("utf-8"))
+                if fmtn == 1:
+                    got = [e["file"] for e in doc.get("errors", [])]
+                    rep_valid = bool(doc["results"]["valid"])
+                    if (doc["status"] == "failure") != (not rep_valid):
+                        bad.append("JSON report: status and results.valid disagree")
+                    if doc["results"]["invalid_files"] != len(got) or doc["results"]["total_files"] != len(outs):
+                        bad.append("JSON report: counters do not match errors[] / the number of inputs")
+                else:
+                    if doc.get("version") != "2.1.0" or not isinstance(doc.get("runs"), list) or len(doc["runs"]) != 1:
+                        raise ValueError("not a SARIF 2.1.0 document with one run")
+                    rules = {x["id"] for x in doc["runs"][0]["tool"]["driver"]["rules"]}
+                    got = []
+                    for res in doc["runs"][0]["results"]:
+                        if res["ruleId"] not in rules or res.get("level") not in ("error", "warning", "note"):
+                            bad.append("SARIF result with unknown rule or level")
+                        got.append(res["locations"][0]["physicalLocation"]["artifactLocation"]["uri"])
+                    rep_valid = not got
+                idx = []
+                for g in got:
+                    m = [i for i, n in enumerate(names) if n == g or n.replace("\\", "/") == g]
+                    idx.append(m[0] if m else 999)
+                rep = sorted(idx)
+                if len(set(idx)) != len(idx):
+                    bad.append("report names an input twice")
+            except Exception as e:      # malformed report
+                bad.append("machine-readable report is not well-formed: %s" % str(e)[:120])
+                rep = [998]
+        # oracle: exit status vs library
+        well_formed = fmtn != 3 and out_ok and outs
+        if well_formed:
+            verdicts = [lib_accepts(lib, t.strip() if kind == "inline" else t, strict) for t in texts]
+            if None not in verdicts:
+                if (rc == 0) != all(verdicts):
+                    bad.append("exit status %d but library accepts=%s" % (rc, verdicts))
+                if rep is not None and rep != [i for i, v in enumerate(verdicts) if not v]:
+                    bad.append("report names inputs %s, the library rejects %s" % (rep, [i for i, v in enumerate(verdicts) if not v]))
+        if writes or (extra and extra != [outfile]):
+            bad.append("validate modified or created files: %s %s" % (writes, extra))
+        case = "CValidate (mkV %d %s) %s %d %s %s" % (
+            fmtn, cq_bool(out_ok), cq_input(kind, ["VValid" if o else "VInvalid" for o in outs], refused), rc,
+            "None" if rep is None else "(Some [%s])" % "; ".join("%d%%nat" % i for i in rep), cq_bool(rep_valid if fmtn == 1 else not any(not o for o in outs)))
+        return case, bad
+
+    if cmd == "format":
+        o = fmt_opts(fl)
+        output = fl.get("output")
+        out_ok = not (output and output.startswith("nodir/"))
+        inplace, check = bool(fl.get("inplace")), bool(fl.get("check"))
+        def outcome(t, wok):
+            if t is None:
+                return None
+            if t == "" and kind == "files":
+                return ("", "", wok)
+            f = lib.get(t, o)
+            return (t, f["fmt"], wok) if f["fmt_ok"] else None
+        if kind == "files":
+            outs = [outcome(t, (sc.get("fsize") is None) if inplace else out_ok) for t in texts]
+        elif kind in ("stdin", "inline") and not refused:
+            outs = [outcome(texts[0], out_ok)]
+        else:
+            outs = []
+        items = ["FFail" if x is None else "(FOk %s %s %s)" % (cq_b(x[0]), cq_b(x[1]), cq_bool(x[2])) for x in outs]
+        stdout = None if (check and kind == "files") or fl.get("verbose") else r["out"]
+        outf = r["after"].get(output) if output else None
+        # oracle
+        if check and (writes or extra):
+            bad.append("--check modified or created files: %s %s" % ([i for i, _ in writes], extra))
+        if not inplace and writes:
+            bad.append("input files were modified without -i: %s" % [i for i, _ in writes])
+        for i, b in writes:
+            f = outs[i]
+            if f is None:
+                bad.append("file %d was rewritten although its processing failed" % i)
+            elif b != f[1].encode():
+                bad.append("file %d was rewritten with something else than the formatted text" % i)
+        if outs and out_ok and sc.get("fsize") is None and not (kind == "stdin" and inplace):
+            good = all(x is not None and (not check or x[0] == x[1]) for x in outs)
+            if (rc == 0) != good:
+                bad.append("exit status %d but formatting ok=%s, needs formatting=%s" % (rc, [x is not None for x in outs], [x is not None and x[0] != x[1] for x in outs]))
+        case = "CFormat (mkF %s %s %s) %s %s" % (cq_bool(inplace), cq_bool(check), cq_bool(bool(output)), cq_input(kind, items, refused),
+                                              cq_observed(rc, stdout, writes, outf))
+        return case, bad
+
+    if cmd == "lint":
+        o = dict(max_length=fl.get("max_length", 100))
+        fix, failwarn = bool(fl.get("fix")), bool(fl.get("failwarn"))
+        def outcome(t):
+            if t is None:
+                return None
+            f = lib.get(t, o)
+            return (t, [v["severity"] for v in f["violations"]], f["fixed"])
+        outs = [] if (kind == "none" or refused) else [outcome(t) for t in texts]
+        sevmap = {"error": "SErr", "warning": "SWarn", "info": "SInfo"}
+        items = ["LReadErr" if x is None else "(LOk %s [%s] %s true)" % (cq_b(x[0]), "; ".join(sevmap[s] for s in x[1]), cq_b(x[2])) for x in outs]
+        if not fix and (writes or extra):
+            bad.append("lint without --auto-fix modified or created files")
+        for i, b in writes:
+            f = outs[i]
+            if f is None or not f[1] or b != f[2].encode():
+                bad.append("file %d was rewritten with something else than the auto-fixed text of a file with findings" % i)
+        if outs:
+            sevs = [s for x in outs if x is not None for s in x[1]]
+            good = all(x is not None for x in outs) and "error" not in sevs and not (failwarn and "warning" in sevs)
+            if (rc == 0) != good:
+                bad.append("exit status %d but read errors=%s severities=%s fail-on-warn=%s" % (rc, [x is None for x in outs], sorted(set(sevs)), failwarn))
+        case = "CLint (mkL %s %s) %s %s" % (cq_bool(fix), cq_bool(failwarn), cq_input(kind, items, refused), cq_observed(rc, None, writes, None))
+        return case, bad
+
+    if cmd == "parse":
+        tokens = bool(fl.get("tokens"))
+        def outcome(t, is_file):
+            if t is None or (is_file and t == ""):
+                return False
+            f = lib.get(t)
+            return f["tokenize_ok"] if tokens else f["pipeline_ok"]
+        if kind == "files":
+            outs = [outcome(t, True) for t in texts]
+        elif kind == "inline":
+            outs = [looks_like_sql(texts[0]) and outcome(texts[0].strip(), False)]
+        elif kind == "stdin" and not refused:
+            outs = [outcome(texts[0], False)]
+        else:
+            outs = []
+        if writes or extra:
+            bad.append("parse modified or created files")
+        if rc == 0 and fl.get("fmt") == "json":
+            try:
+                json.loads(r["out"].decode("utf-8"))
+            except Exception as e:
+                bad.append("parse -f json printed something that is not JSON: %s" % str(e)[:100])
+        if len(outs) == 1 and not tokens:
+            t = texts[0].strip() if kind == "inline" else texts[0]
+            v = lib_accepts(lib, t, False)
+            if kind == "inline" and not looks_like_sql(texts[0]):
+                v = None
+            if v is not None and (rc == 0) != v:
+                bad.append("exit status %d but library accepts=%s" % (rc, v))
+        case = "CParse %s %d" % (cq_input(kind, ["PAccept" if x else "PReject" for x in outs], refused), rc)
+        return case, bad
+    raise ValueError(cmd)
+
+
+def run_cli_tty(binp, args, cwd, fsize=None, timeout=60):
+    """runs the binary with a terminal on stdin (a pty), so that 'no piped input' paths are taken"""
+    import pty
+    master, slave = pty.openpty()
+    try:
+        argv = [binp] + args if fsize is None else _limit_wrapper(binp, args, fsize)
+        p = subprocess.run(argv, cwd=cwd, env=CLEAN_ENV, timeout=timeout, stdin=slave, stdout=subprocess.PIPE, stderr=subprocess.PIPE)
+    finally:
+        os.close(master)
+        os.close(slave)
+    return p.returncode, p.stdout, p.stderr
+
+
+def build_scenarios(tier, rng):
+    S = []
+    def add(cmd, kind, texts, **flags):
+        fsize = flags.pop("fsize", None)
+        sc = dict(cmd=cmd, kind=kind, texts=list(texts), flags=flags)
+        if fsize is not None:
+            sc["fsize"] = fsize
+        S.append(sc)
+    V, I, E, L = VALID, INVALID, EDGE, LINTY
+    sets = [[V[0]], [I[0]], [E[0]], [V[0], V[1]], [V[0], I[0]], [I[0], V[0], E[0]], [V[1], I[1], V[2], I[2]], [E[1]], [E[2]], [E[3]],
+            [MISSING], [V[0], MISSING], [V[4]], [I[3], V[3]], [E[0], E[0]], [E[4]]]
+    if tier != "quick":
+        import sqlgen
+        pool = V + I + E + L + [s + "\n" for s in sqlgen.corpus_statements()[:60] if len(s) < 300] + [s for s in sqlgen.SPECIAL if len(s) < 300][:40]
+        for _ in range(120):
+            sets.append([rng.choice(pool) for _ in range(rng.randint(1, 4))])
+    # validate
+    for fs in sets:
+        for fmt in (None, "json", "sarif"):
+            for strict in (False, True):
+                add("validate", "files", fs, fmt=fmt, strict=strict)
+    add("validate", "files", sets[4], fmt="xml")
+    add("validate", "files", sets[4], fmt="json", outfile="rep.json")
+    add("validate", "files", sets[4], fmt="sarif", outfile="rep.sarif")
+    add("validate", "files", sets[4], fmt="json", outfile="nodir/rep.json")
+    add("validate", "files", sets[4], quiet=True)
+    add("validate", "files", sets[3], fmt=None, outfile="rep.txt")
+    for t in V[:2] + I[:2] + E + ["\0binary"]:
+        for fmt in (None, "json", "sarif", "xml"):
+            for strict in (False, True):
+                add("validate", "stdin", [t], fmt=fmt, strict=strict)
+    for t in INLINE:
+        for fmt in (None, "json", "sarif", "xml"):
+            for strict in (False, True):
+                add("validate", "inline", [t], fmt=fmt, strict=strict)
+    add("validate", "none", [])
+    # format
+    fsets = sets + [[lib_fixed] for lib_fixed in ["SELECT\n1", "SELECT\n1\n"]]
+    fflags = [dict(), dict(inplace=True), dict(check=True), dict(inplace=True, check=True), dict(output="out.sql"),
+              dict(compact=True), dict(no_uppercase=True), dict(indent=4), dict(compact=True, inplace=True), dict(compact=True, check=True),
+              dict(no_uppercase=True, inplace=True), dict(no_uppercase=True, check=True), dict(check=True, output="out.sql"),
+              dict(output="nodir/out.sql"), dict(indent=4, check=True), dict(uppercase_flag=True, compact=True)]
+    for fs in fsets:
+        for fl in (fflags if tier != "quick" or len(fs) <= 2 else fflags[:5]):
+            add("format", "files", fs, **fl)
+    add("format", "files", [V[0]], inplace=True, fsize=5)
+    add("format", "files", [V[0], V[3]], inplace=True, fsize=0)
+    for t in V[:3] + I[:2] + E + ["SELECT\n1", "\0x"]:
+        for fl in (dict(), dict(check=True), dict(inplace=True), dict(output="out.sql"), dict(compact=True), dict(compact=True, check=True), dict(no_uppercase=True)):
+            add("format", "stdin", [t], **fl)
+    for t in INLINE:
+        for fl in (dict(), dict(check=True), dict(inplace=True), dict(output="out.sql"), dict(compact=True, check=True), dict(indent=4)):
+            add("format", "inline", [t], **fl)
+    add("format", "none", [])
+    # lint
+    lsets = [[L[0]], [L[1]], [L[2]], [L[3]], [V[4]], [L[0], V[4], L[1]], [MISSING], [L[0], MISSING], [E[0]], [V[0], I[0]], [E[1]]]
+    if tier != "quick":
+        lsets += [s for s in sets[16:76]]
+    for fs in lsets:
+        for fl in (dict(), dict(fix=True), dict(failwarn=True), dict(fix=True, failwarn=True), dict(max_length=30), dict(max_length=30, fix=True)):
+            add("lint", "files", fs, **fl)
+    for t in L + [V[4], E[0]]:
+        for fl in (dict(), dict(fix=True), dict(failwarn=True)):
+            add("lint", "stdin", [t], **fl)
+    for t in INLINE:
+        for fl in (dict(), dict(fix=True), dict(failwarn=True)):
+            add("lint", "inline", [t], **fl)
+    add("lint", "none", [])
+    # parse
+    for t in V + I + E + [MISSING]:
+        for fl in (dict(), dict(fmt="json"), dict(tokens=True), dict(tree=True), dict(fmt="yaml"), dict(tokens=True, fmt="json")):
+            add("parse", "files", [t], **fl)
+    add("parse", "files", [V[0], V[1]])
+    for t in V[:2] + I[:2] + E + ["-- c\nselect 1\n", "f0.sql", "values (1)\n"]:
+        for fl in (dict(), dict(fmt="json"), dict(tokens=True)):
+            add("parse", "stdin", [t], **fl)
+    for t in INLINE:
+        for fl in (dict(), dict(fmt="json"), dict(tokens=True)):
+            add("parse", "inline", [t], **fl)
+    add("parse", "none", [])
+    return S
+
+
+def sc_name(sc):
+    return "%s %s %s %s" % (sc["cmd"], " ".join(scenario_argv(sc)[1:])[:80], sc["kind"], [None if t is None else t[:24] for t in sc["texts"]])
+
+
+def verdict_matrix(rp, binp, scr, tier, rng):
+    scenarios = build_scenarios(tier, rng)
+    lib = Lib()
+    for sc in scenarios:
+        o = fmt_opts(sc["flags"]) if sc["cmd"] == "format" else dict(max_length=sc["flags"].get("max_length", 100)) if sc["cmd"] == "lint" else None
+        for t in sc["texts"]:
+            lib.need(t, o)
+            lib.need(t, None)
+    lib.fetch()
+    with concurrent.futures.ThreadPoolExecutor(max_workers=8) as ex:
+        results = list(ex.map(lambda sc: run_scenario(binp, scr, sc), scenarios))
+    cases, failures = [], []
+    for sc, r in zip(scenarios, results):
+        case, bad = judge(sc, r, lib)
+        cases.append(case)
+        if bad:
+            failures.append((sc, r, bad))
+    # the model, evaluated by Coq on the same runs
+    mism = []
+    okc = True
+    for base in range(0, len(cases), 300):
+        sh = cases[base:base + 300]
+        body = ("From Coq Require Import List NArith.\nFrom GV Require Import Model.FileRepl Model.Cli.\nImport ListNotations.\nOpen Scope N_scope.\n"
+                "Definition cases : list cli_case := [\n" + ";\n".join(sh) + "].\n"
+                "Definition bad := Eval vm_compute in bad_idx cli_case_ok 0 cases.\nPrint bad.\n")
+        ok1, outc, errc = common.coq_cases("c19_cli_cases_%d" % (base // 300), body)
+        if not ok1:
+            okc = False
+            rp.violation({"kind": "correspondence", "broken": "Cli model cases do not compile", "detail": errc[-2000:]}, "cli_cases_coq", no_input=True)
+            break
+        mism += [base + i for i in common.parse_nlist(outc)]
+    return scenarios, results, failures, mism, okc
+
+
+def report_matrix(rp, scenarios, results, failures, mism, okc):
+    failing_idx = {id(sc) for sc, _, _ in failures}
+    rp.obligation("oracle: exit status / writes / reports of the real binary agree with the library verdicts on %d runs" % len(scenarios), not failures)
+    rp.obligation("correspondence: Coq verdict model = real binary (status, files written, stdout, report) on %d runs" % len(scenarios), okc and not mism)
+    seen = set()
+    for sc, r, bad in failures:
+        sig = (sc["cmd"], sc["kind"], tuple(sorted(k for k, v in sc["flags"].items() if v)), bad[0][:40])
+        if sig in seen:
+            continue
+        seen.add(sig)
+        rp.violation({"kind": "verdict", "property": "C19", "scenario": sc, "argv": scenario_argv(sc), "exit": r["rc"],
+                      "stdout": r["out"][-1500:].decode("utf-8", "replace"), "stderr": r["err"][-600:].decode("utf-8", "replace"),
+                      "failed": bad, "replay_cmd": "bin/check C19 --replay <this file>"},
+                     "verdict_%s_%s_%d" % (sc["cmd"], sc["kind"], len(rp.violations)))
+    only_model = [i for i in mism if id(scenarios[i]) not in failing_idx]
+    for i in only_model[:5]:
+        sc, r = scenarios[i], results[i]
+        rp.violation({"kind": "correspondence", "property": "C19", "broken": "Model/Cli.v does not predict the binary's behaviour on this run; the implementation-side oracle found no property violation on it",
+                      "scenario": sc, "argv": scenario_argv(sc), "exit": r["rc"], "stdout": r["out"][-800:].decode("utf-8", "replace"),
+                      "files_after": {k: v.decode("utf-8", "replace")[:200] for k, v in r["after"].items()}},
+                     "cli_model_mismatch_%d" % i, no_input=True)
+
+
 def run(tier):
     rp = Report("C19", tier)
+    rng = random.Random(common.seed())
     try:
         with common.Lock():
             binp = stage_cli()
+            common.stage_harness()
     except common.StageError as e:
         return common.stage_fail(rp, e)
     with Scratch() as sc:
         r1 = file_replacement(rp, binp, sc, tier)
         if r1 is None:
             return rp.finish()
+        try:
+            scenarios, results, failures, mism, okc = verdict_matrix(rp, binp, sc, tier, rng)
+        except common.StageError as e:
+            return common.stage_fail(rp, e)
+    report_matrix(rp, scenarios, results, failures, mism, okc)
     ev, nt, samples = r1
-    rp.cov["evaluations"] = ev
-    rp.cov["distinct_nontrivial"] = nt
+    kinds = {}
+    for s_ in scenarios:
+        k = (s_["cmd"], s_["kind"])
+        kinds[k] = kinds.get(k, 0) + 1
+    nontrivial = {(s_["cmd"], s_["kind"], tuple(sorted(k for k, v in s_["flags"].items() if v)), tuple(s_["texts"]))
+                  for s_ in scenarios if s_["kind"] != "none" and (len(s_["texts"]) > 1 or any(s_["flags"].values()))}
+    rp.cov["evaluations"] = ev + len(scenarios)
+    rp.cov["distinct_nontrivial"] = nt + len(nontrivial)
+    rp.cov["matrix_runs"] = len(scenarios)
+    rp.cov["matrix_distribution"] = {"%s/%s" % k: v for k, v in sorted(kinds.items())}
+    rp.cov["matrix_exit_nonzero"] = sum(1 for r in results if r["rc"] != 0)
+    rp.cov["matrix_runs_with_file_rewritten"] = sum(1 for r in results if any(r["after"].get(k) != v for k, v in r["before"].items()))
     rp.cov["rule"] = ("crash run = one execution of an in-place command (format -i / lint --auto-fix) on a file it rewrites, with a write failure injected "
                       "(RLIMIT_FSIZE=k, every k in 0..|output|+1) or SIGKILL delivered on entry of a system call (every call of the run; for cut writes the calls of the failing run); "
-                      "non-trivial = the write is cut strictly inside the output (0<k<|output|) or the process was killed at a distinct point of the protocol")
-    rp.cov["samples"] = samples
+                      "non-trivial = the write is cut strictly inside the output (0<k<|output|) or the process was killed at a distinct point of the protocol. "
+                      "matrix run = one execution of validate/format/lint/parse on a file set / stdin / inline SQL with a flag combination; "
+                      "non-trivial = has an input and (several inputs or at least one flag); distinct = distinct (command, input kind, flags, texts)")
+    rp.cov["samples"] = samples + [dict(argv=scenario_argv(s_), kind=s_["kind"], exit=r["rc"]) for s_, r in list(zip(scenarios, results))[5:8]]
     rp.assumptions = ["strace reports every system call that changes a file in the scratch directory (unmodelled families are flagged)",
                       "RLIMIT_FSIZE injects the write failure: the kernel cuts the write at the limit, the next write fails with EFBIG (SIGXFSZ ignored)",
-                      "durability across power loss is outside the model (Fsync is a no-op on the visible state)"]
+                      "durability across power loss is outside the model (Fsync is a no-op on the visible state)",
+                      "library verdicts come from the Go harness (gosqlx.Validate / parser.Validate / tokenizer+parser pipeline with and without strict mode, "
+                      "cmd.NewSQLFormatter, the linter with the rule set of `gosqlx lint`); inputs on which the library's own entry points disagree are "
+                      "excluded from the accept/reject comparison (property C07) but still compared with the model"]
     return rp.finish()
 
 
@@ -598,7 +1138,12 @@ PROP_THEOREMS = ["Props.C19.C19_replace_atomic", "Props.C19.C19_replace_success"
                  "Props.C19.C19_shape_atomic", "Props.C19.C19_untouched_keeps",
                  "Props.C19.C19_writefile_crash_prefix", "Props.C19.C19_writefile_refuted", "Props.C19.C19_trunc_shape_loses_old",
                  "Props.C19.C19_observed_format_atomic", "Props.C19.C19_observed_lint_atomic",
-                 "Props.C19.C19_observed_failures_keep_old"]
+                 "Props.C19.C19_observed_failures_keep_old",
+                 "Props.C19.C19_exit_validate_zero_accepts", "Props.C19.C19_exit_validate_zero_iff", "Props.C19.C19_report_names_exactly_failing",
+                 "Props.C19.C19_report_exists_iff", "Props.C19.C19_report_valid_iff_exit", "Props.C19.C19_exit_format_zero_iff",
+                 "Props.C19.C19_exit_format_zero_iff_one", "Props.C19.C19_check_never_writes", "Props.C19.C19_format_only_on_success",
+                 "Props.C19.C19_format_triangle", "Props.C19.C19_format_triangle_one", "Props.C19.C19_exit_lint_zero_iff",
+                 "Props.C19.C19_lint_no_fix_never_writes", "Props.C19.C19_lint_only_on_success", "Props.C19.C19_exit_parse_zero_iff"]
 
 
 def replay(path):
@@ -615,4 +1160,18 @@ def replay(path):
         print(json.dumps({"k": d["k"], "inj": d.get("inj"), "exit": r["rc"], "on_disk": state,
                           "content": None if r["cur"] is None else r["cur"].decode("latin1")}))
         return 0 if state != "neither" else 1
+    if d.get("kind") in ("verdict", "correspondence") and d.get("scenario"):
+        binp = stage_cli()
+        sc = d["scenario"]
+        lib = Lib()
+        o = fmt_opts(sc["flags"]) if sc["cmd"] == "format" else dict(max_length=sc["flags"].get("max_length", 100)) if sc["cmd"] == "lint" else None
+        for t in sc["texts"]:
+            lib.need(t, o)
+            lib.need(t, None)
+        lib.fetch()
+        with Scratch() as scr:
+            r = run_scenario(binp, scr, sc)
+        case, bad = judge(sc, r, lib)
+        print(json.dumps({"argv": scenario_argv(sc), "exit": r["rc"], "failed": bad}))
+        return 1 if bad else 0
     return 2
